@@ -18,7 +18,11 @@ binding:   (a) one CASE line per value (every value up to length 5 / 6 over x : 
                with multivalued-key assignments to throw-away objects, values re-used across keys,
                objects and classes and repeated after rejections (values up to 40 characters over
                the domain, new and existing keys) recorded from the real classes and validated by
-               TLC, which evaluates Classify / Validate / ReadBack on the concrete code points.
+               TLC, which evaluates Classify / Validate / ReadBack on the concrete code points.  Drawn within these
+               histories (round 7): CHAINS of assignments to one key whose values extend / are prefixes of / share a
+               prefix with the stored one, cut at every line-boundary character (LF, CR, CRLF), and merge_fields --
+               in place ("merge" events: the library computes and assigns the value) and in its 3-argument form
+               followed by the assignment of what it returned.
            (a') spec/Deb822ValueHist.tla: the verdict of an assignment is HISTORY-FREE (closed LTS over
                three live objects, keys A / N (absent) / Files, three values, multivalued-key
                assignments to throw-away objects; implementation layer with a process-wide memo as
@@ -134,8 +138,17 @@ within one history (legs: C = CASE replay, W = LTS walks on live objects, T = re
              values of multivalued fields (lists / dicts, or str     out of domain (D3, not validated by documentation); str values
                  under Files, Checksums-*, SHA256 ... of Dsc,        under such keys are executed on throw-away objects as history
                  Changes, BuildInfo, Release, PdiffIndex, Sources)   perturbation (W T)
-             d.merge_fields(k, d1[, d2]) / mergeFields               out of domain: the value assigned is computed by the library
-                                                                     (it ends in self[k] = merged, i.e. the validated entry point)
+             d.merge_fields(k, other) / mergeFields, IN PLACE,        T ("merge" events, TraceDeb822Value.MergeChecks): in domain as an
+                 other = a paragraph of any class / of d's class /    entry point that ASSIGNS -- accepted => the value found under k has
+                 the other live object / a plain mapping of every     none of the statement's defects, same field names, every read-back one
+                 kind; k present in both, in one; multi-line          paragraph; else ValueError and nothing changed.  WHAT merge computes
+                 operands sharing / adding first, middle, last        (and that it refuses single- vs multi-line operands) is X03's business;
+                 lines, LF / CRLF; single-line lists                  k absent on both sides (KeyError by documentation) is never judged
+             merged = x.merge_fields(k, d1, d2); d[k] = merged        T (an ordinary "assign" event with the value the library returned)
+             the SAME key assigned again and again, the new value     T (gen_chain: 60 % of the recorded histories; every step an ordinary
+                 extending the stored one / a prefix of it / sharing  event, verdict history-free) -- spec: Deb822ValueHist with UseExt (values
+                 a prefix with it, cut in front of / behind every     "x\r" < "x\r x", "x\rx:x"; closed, keys A / Files) holds HistoryFree /
+                 LF, CR and between CR and LF                         HistSound, negative control AppendFastPath violates them
              TagSectionWrapper / use_apt_pkg=True                    out of domain: python-apt is not installed in this image
   subclasses Deb822, Dsc, Changes, BuildInfo, Release, PdiffIndex,   C W T (ALL_CLASSES rotate in every leg)
              Sources, Packages, Removals
@@ -169,8 +182,9 @@ and StrictDroppedInGpgClasses, PosStrictMissedByPrepass must make TLC report Sou
 MemoMode = "value" / "keyvalue", RejectStoresEmpty, DumpMemoPartial (the entries formatted before a failed write are
 kept and replayed by later dumps: HistSound), TrustSourceClass (values of a carrier that is a paragraph of
 the target's class or of a subclass are not validated) and ParseLeavesUnchecked (an object whose parsing
-constructor met no field never validates again) HistoryFree;
-corrupted control traces (assignment, fresh, build and faultdump events) must be rejected, a literal good one accepted.
+constructor met no field never validates again) HistoryFree, AppendFastPath (only the text appended to the value
+stored under the key is validated) HistSound;
+corrupted control traces (assignment, same-key chain, merge, fresh, build and faultdump events) must be rejected, a literal good one accepted.
 """
 import io
 import json
@@ -184,8 +198,8 @@ import core
 
 MANIFEST = dict(
     technique="TLA+ spec over code points (Deb822Value: statement layer + transcription of validate_input, _dump_format and the iter_paragraphs reader for str and file input with both whitespace settings; Deb822ValueHist: history-free assignment over several live paragraphs with a process-wide memo as implementation-layer negative control, plus construction actions -- a live paragraph replaced by an empty one or by one built from a mapping / a paragraph of any class -- with carrier-class trust and a stuck parser flag as negative controls, plus fault actions -- dump(fd) into a failing file object, a constructor handed a failing mapping -- with a partially filled dump memo as negative control) model-checked by TLC; bounded-exhaustive CASE lines and walks through the closed history LTS replayed into Deb822/Dsc/Changes/Release/BuildInfo/PdiffIndex with size-stressed concretizations; recorded multi-object assignment histories validated by TLC (TraceDeb822Value)",
-    text="TLC enumerates every value up to length 5 (quick) / 6 (thorough) over the seven symbols x : # space tab CR LF, assigns it to the first, middle and last field of a three-field paragraph and checks on the transcription of the code that an accepted value, dumped and read back by the character-level model of iter_paragraphs (str.splitlines for str input, LF-terminated lines for file input), gives exactly one paragraph with the same field names when whitespace-only lines do not separate paragraphs, and under the default setting too when no continuation line is blank (Sound); that the three defects named by the statement imply rejection and that the validator's scanner equals the declarative characterisation (RejectComplete, RejectExact); that rejection leaves the paragraph unchanged; that the classification is independent of the length of payload runs and of the number of repetitions of a continuation line (size lemmas). A second module makes the assignment a history over three live paragraphs of two kinds of class (Files validated / Files multivalued and unvalidated) plus multivalued-key assignments to throw-away objects: the reference verdict is history-free, the closed state space is explored and memoising by value, by (key, value) or leaving an empty field behind after a rejection are shown to break it. With WithBuild = TRUE the same module has two construction actions -- Fresh (a live paragraph is replaced by an EMPTY one: no argument / parsing constructor over field-less input / cleared in place) and Rebuild (it is replaced by Cls(M) for a mapping M carrying another live paragraph's fields, optionally with a raw value under Files, M being a plain mapping, a paragraph where Files is ordinary or a paragraph where Files is multivalued and therefore unvalidated) -- whose reference outcome depends on the target class and the values only; trusting the carrier's class and a parser that leaves validation switched off after field-less input are the negative controls. The read-back operator has the class / constructor dimension (plain classes vs. the gpg-aware Dsc / Changes / BuildInfo whose constructor cuts the paragraph out in a pre-pass; constructor vs. iter_paragraphs; str vs. line input; strict reaching the pre-pass and the field parser), with negative controls for a strict that is dropped before the field parser and for a positional strict the pre-pass does not see (a genuine defect found by this check, repaired in /repo 2236619). Every CASE line is replayed into the real classes (Deb822, Dsc, Changes, BuildInfo, Release, PdiffIndex; the dump is read back with Deb822.iter_paragraphs and through the producing class's own constructor / iter_paragraphs from str, bytes, list, StringIO, BytesIO with strict by keyword and positionally; all three positions for what is accepted, several concretizations of x, d[k]=v and update(), every 8th/6th case size-stressed: payload runs up to 64 KiB, the first special character at offset 4095/4096/4097, 100/1000 continuation lines, field names up to 1024 characters, paragraphs of up to 1000 fields), walks through the history LTS and through the construction LTS (every multivalued field of every class playing Files, 47 ways to an empty paragraph, eight kinds of mapping plus live and throw-away paragraphs of every class as carriers) are replayed on three live objects with outcome, all paragraphs and the read-back verdicts checked after every step, and assignment histories recorded from two live objects of five classes (values up to 40 characters re-used across keys, objects and classes, repeated after rejections, new keys, multivalued-key assignments, empty-paragraph replacements and constructions from mappings in between) are validated by TLC on the concrete code points. Faults of caller-supplied objects are ordinary steps of all three legs: dump(fd) with a file object that fails while the first / a middle / the last field is written (capacity-limited BytesIO / StringIO / write()-only objects raising OSError, ValueError, KeyError, RuntimeError, a private exception or returning a short count; text file without text_mode, closed file, /dev/full, unencodable field) and, in the construction LTS, Cls(M) with a mapping that raises at its k-th item -- the model actions FaultDump / FaultBuild leave every paragraph unchanged, the caller's fault must come out as it was produced and the next dump of the object must read back whole (negative control: a serialisation memo filled while the dump is consumed). Dumps whose line ends are aligned to byte offsets 2^k (k = 9..17, +-1) are read back through every kind of file object (buffered / unbuffered / text files, short-read readers, gzip / bz2 / lzma, spooled files, generators).",
-    note="Small scope: values <= 6 symbols exhaustively, longer ones sampled; the history model has 3 objects x 3 keys x 3 values (closed), the construction model 3 objects x 2 keys x 3 values (closed). Sizes beyond ~40 characters are never scanned by TLC: they are concretizations of small abstract cases whose expectation is length-independent (size lemmas checked by TLC for one duplication step up to the bound -- evidence, not proof, for longer runs). Unspecified (executed, never judged on acceptance): 'zone' = a lone CR followed by something that is not indentation (rejected today), 'blank' = a whitespace-only continuation line (accepted today), any assignment to a multivalued key of its class (not validated today; likewise a constructor handed such a key, never generated); whatever is accepted on a validated key must still read back as one paragraph with the same keys. Default-setting read-back is judged only when no value of the paragraph has a blank continuation line. Characters outside the property's domain (NBSP, VT, FF, U+0085, U+2028, other Unicode whitespace) are never generated. Trusted: TLC, the projections (list(d.items()), key lists of the paragraphs read back), the concretizer. Spec-level negative controls and corrupted control traces are run in every check.",
+    text="TLC enumerates every value up to length 5 (quick) / 6 (thorough) over the seven symbols x : # space tab CR LF, assigns it to the first, middle and last field of a three-field paragraph and checks on the transcription of the code that an accepted value, dumped and read back by the character-level model of iter_paragraphs (str.splitlines for str input, LF-terminated lines for file input), gives exactly one paragraph with the same field names when whitespace-only lines do not separate paragraphs, and under the default setting too when no continuation line is blank (Sound); that the three defects named by the statement imply rejection and that the validator's scanner equals the declarative characterisation (RejectComplete, RejectExact); that rejection leaves the paragraph unchanged; that the classification is independent of the length of payload runs and of the number of repetitions of a continuation line (size lemmas). A second module makes the assignment a history over three live paragraphs of two kinds of class (Files validated / Files multivalued and unvalidated) plus multivalued-key assignments to throw-away objects: the reference verdict is history-free, the closed state space is explored and memoising by value, by (key, value) or leaving an empty field behind after a rejection are shown to break it. With WithBuild = TRUE the same module has two construction actions -- Fresh (a live paragraph is replaced by an EMPTY one: no argument / parsing constructor over field-less input / cleared in place) and Rebuild (it is replaced by Cls(M) for a mapping M carrying another live paragraph's fields, optionally with a raw value under Files, M being a plain mapping, a paragraph where Files is ordinary or a paragraph where Files is multivalued and therefore unvalidated) -- whose reference outcome depends on the target class and the values only; trusting the carrier's class and a parser that leaves validation switched off after field-less input are the negative controls. The read-back operator has the class / constructor dimension (plain classes vs. the gpg-aware Dsc / Changes / BuildInfo whose constructor cuts the paragraph out in a pre-pass; constructor vs. iter_paragraphs; str vs. line input; strict reaching the pre-pass and the field parser), with negative controls for a strict that is dropped before the field parser and for a positional strict the pre-pass does not see (a genuine defect found by this check, repaired in /repo 2236619). Every CASE line is replayed into the real classes (Deb822, Dsc, Changes, BuildInfo, Release, PdiffIndex; the dump is read back with Deb822.iter_paragraphs and through the producing class's own constructor / iter_paragraphs from str, bytes, list, StringIO, BytesIO with strict by keyword and positionally; all three positions for what is accepted, several concretizations of x, d[k]=v and update(), every 8th/6th case size-stressed: payload runs up to 64 KiB, the first special character at offset 4095/4096/4097, 100/1000 continuation lines, field names up to 1024 characters, paragraphs of up to 1000 fields), walks through the history LTS and through the construction LTS (every multivalued field of every class playing Files, 47 ways to an empty paragraph, eight kinds of mapping plus live and throw-away paragraphs of every class as carriers) are replayed on three live objects with outcome, all paragraphs and the read-back verdicts checked after every step, and assignment histories recorded from two live objects of five classes (values up to 40 characters re-used across keys, objects and classes, repeated after rejections, new keys, multivalued-key assignments, empty-paragraph replacements and constructions from mappings in between) are validated by TLC on the concrete code points. Within these histories the same key is assigned repeatedly with values that extend the stored one, are prefixes of it or share a prefix with it, cut in front of and behind every LF / CR and between CR and LF (the history-free verdict does not depend on the stored value: Deb822ValueHist with the prefix chain 'x\\r' < 'x\\r x', 'x\\rx:x', negative control AppendFastPath), and merge_fields is exercised as an entry point that assigns -- in place with a paragraph of any class, the other live object or a plain mapping as operand (trace event merge: accepted => the stored value has none of the statement's defects, the field names are kept and every read-back is one paragraph, otherwise ValueError and nothing changed) and in its 3-argument form followed by the assignment of the returned value; what the merge computes is not judged. Faults of caller-supplied objects are ordinary steps of all three legs: dump(fd) with a file object that fails while the first / a middle / the last field is written (capacity-limited BytesIO / StringIO / write()-only objects raising OSError, ValueError, KeyError, RuntimeError, a private exception or returning a short count; text file without text_mode, closed file, /dev/full, unencodable field) and, in the construction LTS, Cls(M) with a mapping that raises at its k-th item -- the model actions FaultDump / FaultBuild leave every paragraph unchanged, the caller's fault must come out as it was produced and the next dump of the object must read back whole (negative control: a serialisation memo filled while the dump is consumed). Dumps whose line ends are aligned to byte offsets 2^k (k = 9..17, +-1) are read back through every kind of file object (buffered / unbuffered / text files, short-read readers, gzip / bz2 / lzma, spooled files, generators).",
+    note="Small scope: values <= 6 symbols exhaustively, longer ones sampled; the history model has 3 objects x 3 keys x 3 values (closed), the construction model 3 objects x 2 keys x 3 values (closed). Sizes beyond ~40 characters are never scanned by TLC: they are concretizations of small abstract cases whose expectation is length-independent (size lemmas checked by TLC for one duplication step up to the bound -- evidence, not proof, for longer runs). Unspecified (executed, never judged on acceptance): 'zone' = a lone CR followed by something that is not indentation (rejected today), 'blank' = a whitespace-only continuation line (accepted today), any assignment to a multivalued key of its class (not validated today; likewise a constructor handed such a key, never generated); whatever is accepted on a validated key must still read back as one paragraph with the same keys. merge_fields: the merged value itself, the ValueError for single- against multi-line operands and the KeyError for a key absent on both sides are not judged (X03). Default-setting read-back is judged only when no value of the paragraph has a blank continuation line. Characters outside the property's domain (NBSP, VT, FF, U+0085, U+2028, other Unicode whitespace) are never generated. Trusted: TLC, the projections (list(d.items()), key lists of the paragraphs read back), the concretizer. Spec-level negative controls and corrupted control traces are run in every check.",
     design="5 (C08)")
 
 X = 120
@@ -1962,6 +1976,77 @@ def simple_value(rng):
     return "\n " + pick_x(rng) + " #" + pick_x(rng)
 
 
+LINE_ENDS = ("\n", "\r", "\r\n")
+
+
+def boundary_cuts(s):
+    """every position of s next to a line-boundary character of the domain: in front of it, behind it, between
+    CR and LF -- plus the two ends"""
+    cuts = {0, len(s)}
+    for i, ch in enumerate(s):
+        if ch in "\r\n":
+            cuts.update((i, i + 1))
+    return sorted(cuts)
+
+
+def gen_chain(rng):
+    """values for successive assignments to ONE key of one object: base + line end + tail and its prefixes cut at
+    every line-boundary character (so that the value stored under the key is a proper prefix of the next one, or
+    the next one a prefix of it, or the two share a prefix) -- growing, shrinking or in any order.  Every single
+    assignment is judged by the history-free reference, like any other event."""
+    base = simple_value(rng) if rng.random() < 0.6 else gen_value(rng)[:16]
+    r = rng.random()
+    if r < 0.4:                                          # looks like a field
+        tail = gen_body(rng, rng.randint(1, 3)).replace(":", "x").replace(" ", "x").replace("\t", "x") + rng.choice([":", ": "]) + gen_body(rng, rng.randint(0, 2))
+    elif r < 0.7:                                        # a well-formed continuation line
+        tail = rng.choice([" ", "\t", "  "]) + gen_body(rng, rng.randint(1, 4))
+    elif r < 0.8:
+        tail = ""
+    elif r < 0.9:
+        tail = pick_x(rng) + gen_body(rng, rng.randint(0, 2))
+    else:                                                # an empty / whitespace-only line first
+        tail = rng.choice(["", " ", "\t"]) + rng.choice(LINE_ENDS) + " " + pick_x(rng)
+    full = (base + rng.choice(LINE_ENDS) + tail)[:40]
+    vals = [full[:c] for c in boundary_cuts(full)][-rng.randint(3, 4):]
+    r = rng.random()
+    if r < 0.5:
+        pass                                             # growing: each value extends the stored one
+    elif r < 0.7:
+        vals.reverse()                                   # shrinking
+    else:
+        rng.shuffle(vals)
+        k = rng.randrange(len(vals))                     # ... and one that only SHARES a prefix with its neighbours
+        vals[k] = (vals[k] + rng.choice(["", " ", "\r", "\n"]) + gen_body(rng, rng.randint(1, 3)))[:40]
+    return vals
+
+
+MERGE_WORDS = ["a", "b", "c1", "d", "e-2", "f"]
+
+
+def gen_merge(rng):
+    """(s1, s2): the value stored under the key and the value the operand of merge_fields holds under it -- multi-line
+    values built from a common pool of continuation lines (so that the operand contributes lines that are new, known,
+    first, middle or last), single-line lists with the two delimiters, or one of each / anything of the domain"""
+    r = rng.random()
+    if r < 0.6:
+        pool = [rng.choice([" ", "\t", "  "]) + w for w in rng.sample(MERGE_WORDS, 4)]
+        pool[0] += " " + pick_x(rng)
+        first = rng.choice(["", "", pick_x(rng)])
+        sep1, sep2 = (rng.choice(["\n", "\n", "\n", "\r\n"]) for _ in range(2))
+        s1 = first + "".join(sep1 + ln for ln in rng.sample(pool, rng.randint(1, 2)))
+        s2 = (first if rng.random() < 0.7 else pick_x(rng)) + "".join(sep2 + ln for ln in rng.sample(pool, rng.randint(1, 3)))
+        return s1, s2
+    if r < 0.82:
+        delim = rng.choice([" ", ", "])
+        return (delim.join(rng.sample(MERGE_WORDS, rng.randint(1, 3))) + rng.choice(["", "", "\r"]),
+                delim.join(rng.sample(MERGE_WORDS, rng.randint(0, 3))))
+    return gen_value(rng)[:16], gen_value(rng)[:16]
+
+
+MERGE_FORMS = ("para", "para", "same", "live", "dict", "three-arg", "three-arg-self")
+MERGE_CALLS = ("merge_fields", "merge_fields", "mergeFields")
+
+
 def enc_para(items):
     return [{"k": cp(k), "v": cp(v)} for k, v in items]
 
@@ -2042,9 +2127,48 @@ def record_trace(rng, nev, script=None):
     newkeys = 0
     used = []                                     # values given so far
     last = None
+    # planned multi-step shapes, drawn within the ordinary history (their steps are ordinary events, other events may
+    # come in between): a CHAIN of assignments to the same key with values that extend / are prefixes of / share a
+    # prefix with the stored one; a MERGE -- a value stored under a key, then merge_fields on that key
+    plans, pending = {}, []
+    if script is None:
+        if rng.random() < 0.6:
+            plans[rng.randrange(0, max(1, nev - 4))] = "chain"
+        if rng.random() < 0.4:
+            plans[rng.randrange(0, max(1, nev - 2))] = "merge"
     for i in range(nev if script is None else len(script["calls"])):
         extra = None
-        if script is None:
+        if script is None and not pending and plans and i >= min(plans):
+            kind = plans.pop(min(plans))
+            obj = rng.randint(1, len(objs))
+            clsname = classes[obj - 1]
+            present = [k for k in objs[obj - 1] if k.lower() not in MULTI[clsname]]
+            if not present or rng.random() < 0.25:
+                key = rng.choice([k for k in KEY_POOL + ["Files", "Conffiles", "Checksums-Md5", "SHA256"]
+                                  if k not in present and k.lower() not in MULTI[clsname]])
+            else:
+                key = rng.choice(present)
+            if kind == "chain":
+                pending = [[obj, clsname, key, val, rng.choice(("setitem", "setitem", "update", "update-map", "update-kw")), "", None]
+                           for val in gen_chain(rng)]
+            else:
+                s1, s2 = gen_merge(rng)
+                form = rng.choice(MERGE_FORMS)
+                other = 3 - obj if len(objs) == 2 else obj
+                if form == "live" and (other == obj or key.lower() in MULTI[classes[other - 1]]):
+                    form = "para"
+                opcls = clsname if form == "same" else rng.choice([c for c in TRACE_CLASSES if key.lower() not in MULTI[c]])
+                opnd = [[key if rng.random() < 0.8 else key.upper(), s2]]
+                if rng.random() < 0.4:
+                    opnd.insert(rng.randint(0, 1), ["X-Other", simple_value(rng)])
+                mx = {"form": form, "opcls": opcls, "opnd": opnd, "sel": rng.randrange(1000)}
+                pending = [[obj, clsname, key, s1, "setitem", "", None]]
+                if form == "live":
+                    pending.append([other, classes[other - 1], key, s2, "setitem", "", None])
+                pending.append([obj, clsname, key, "", "merge", "", mx])
+        if script is None and pending and rng.random() < 0.8:
+            obj, clsname, key, v, route, carry, extra = pending.pop(0)
+        elif script is None:
             r = rng.random()
             ro = rng.random()
             if ro < 0.09:                                                      # an empty paragraph takes the place
@@ -2106,7 +2230,62 @@ def record_trace(rng, nev, script=None):
             carry = script["calls"][i][5] if len(script["calls"][i]) > 5 else ""
             extra = script["calls"][i][6] if len(script["calls"][i]) > 6 else None
         op, m = "assign", []
-        if route == "fresh":
+        if route == "merge":
+            # d.merge_fields(key, other): the in-place form ASSIGNS; the 3-argument form returns the value, which is then
+            # assigned.  The operand: a paragraph of any class / of the same class, the other live object, a plain mapping
+            d = objs[obj - 1]
+            form = extra["form"]
+            if form == "live":
+                operand = objs[2 - obj]
+                m = [kv for kv in _items_all([operand])[0]]
+            elif form == "dict":
+                operand, _ = plain_carrier([tuple(kv) for kv in extra["opnd"]], extra["sel"])
+                m = [list(kv) for kv in extra["opnd"]]
+            else:
+                try:
+                    operand = build(extra["opcls"], [tuple(kv) for kv in extra["opnd"]])
+                except Exception:                                    # noqa: BLE001  the operand itself is refused: nothing to merge
+                    continue
+                m = [list(kv) for kv in extra["opnd"]]
+            try:
+                known = key in d or key in operand
+                strs = all(isinstance(x[key], str) for x in (d, operand) if key in x)
+            except Exception:                                        # noqa: BLE001
+                known = strs = False
+            if not known or not strs:
+                continue                                  # KeyError by documentation / not a string field: not this property's
+            call = MERGE_CALLS[extra["sel"] % len(MERGE_CALLS)]
+            if form.startswith("three-arg"):
+                host = d if form == "three-arg-self" else get_class("Deb822")()
+                before = _items_all(objs)
+                try:
+                    with warnings.catch_warnings():
+                        warnings.simplefilter("ignore")
+                        merged = getattr(host, call)(key, d if extra["sel"] % 2 else dict(d.items()), operand)
+                except Exception:                                    # noqa: BLE001  what merge computes / refuses is not judged here
+                    continue
+                if not isinstance(merged, str) or len(merged) > 48 or _items_all(objs) != before:
+                    continue
+                v = merged
+                res = assign(d, key, v, "setitem")
+                used.append(v)
+                last = (obj, clsname, key, v, res)
+            else:
+                op = "merge"
+                try:
+                    with warnings.catch_warnings():
+                        warnings.simplefilter("ignore")
+                        getattr(d, call)(key, operand)
+                    res = "ok"
+                    v = d[key]
+                    if not isinstance(v, str):
+                        v = ""
+                except ValueError:
+                    res = "ValueError"
+                except Exception as e:                               # noqa: BLE001
+                    res = "EXC:" + type(e).__name__
+                last = None
+        elif route == "fresh":
             op = "fresh"
             try:
                 new, _ = make_empty(clsname, extra["how"], extra["sel"], objs[obj - 1])
@@ -2238,6 +2417,15 @@ GOOD_TRACE = _tr([
     # a dump of object 2 into a failing file object: the fault comes out, the next dump is the whole paragraph
     _ev(2, "Dsc", "Binary", "y\n z", True, [[], [["Source", "y\n z"], ["Binary", "y\n z"]]], _rb(["Source", "Binary"])),
     _ev(2, "Dsc", "", "", False, [[], [["Source", "y\n z"], ["Binary", "y\n z"]]], _rb(["Source", "Binary"]), res="fault", op="faultdump"),
+    # the same key again and again, each value extending the stored one, cut at a bare CR: verdicts as ever
+    _ev(2, "Dsc", "Binary", "y\r", True, [[], [["Source", "y\n z"], ["Binary", "y\r"]]], _rb(["Source", "Binary"])),
+    _ev(2, "Dsc", "Binary", "y\rz: w", False, [[], [["Source", "y\n z"], ["Binary", "y\r"]]]),
+    _ev(2, "Dsc", "Binary", "y\r z: w", True, [[], [["Source", "y\n z"], ["Binary", "y\r z: w"]]], _rb(["Source", "Binary"])),
+    # merge_fields in place: the merged value is assigned (accepted), or has an empty line and is refused
+    _ev(2, "Dsc", "Source", "y\n z\n w", True, [[], [["Source", "y\n z\n w"], ["Binary", "y\r z: w"]]], _rb(["Source", "Binary"]),
+        op="merge", m=[["Source", "y\n w"]]),
+    _ev(2, "Dsc", "Source", "", False, [[], [["Source", "y\n z\n w"], ["Binary", "y\r z: w"]]], op="merge", m=[["Source", "y\n q\n r"]]),
+    _ev(1, "Deb822", "New", "y", True, [[["New", "y"]], [["Source", "y\n z\n w"], ["Binary", "y\r z: w"]]], _rb(["New"]), op="merge", m=[["New", "y"]]),
 ])
 
 
@@ -2297,6 +2485,22 @@ def control_traces():
     out.append(_tr([_ev(1, "Deb822", "", "", False, [P3, Q1], _rb(K3), res="swallowed", op="faultdump")]))
     out.append(_tr([_ev(1, "Deb822", "", "", False, [P3, Q1], _rb(K3), res="EXC:AttributeError", op="faultdump")]))
     out.append(_tr([_ev(1, "Deb822", "", "", False, [P3[:2], Q1], _rb(["A", "B"]), res="fault", op="faultdump")]))
+    # ---- same-key histories: the stored value ends in a bare CR, the next one extends it by a line that is not
+    # indented and is accepted (the str read-back shows the extra field)
+    pcr = [["A", "x"], ["B", "y\r"], ["C", "x"]]
+    pcr2 = [["A", "x"], ["B", "y\rz: w"], ["C", "x"]]
+    out.append(_tr([_ev(1, "Deb822", "B", "y\r", True, [pcr, Q1], _rb(K3)),
+                    _ev(1, "Deb822", "B", "y\rz: w", True, [pcr2, Q1], _rb(K3, sF=[["A", "B", "z", "C"]], sT=[["A", "B", "z", "C"]]))]))
+    # ---- merge_fields in place: a merged value with an empty line is stored (with the read-back it gives / with one
+    # that hides it); refused, but the field changed; the stored value is not the one reported; a field went missing
+    mm = "y\n z\n\n w"
+    pm = [["A", "x"], ["B", mm], ["C", "x"]]
+    out.append(_tr([_ev(1, "Deb822", "B", mm, True, [pm, Q1], _rb(K3, **{n: [["A", "B"], ["C"]] for n in TRBNAMES}), op="merge", m=[["B", "y\n z\n w"]])]))
+    out.append(_tr([_ev(1, "Deb822", "B", mm, True, [pm, Q1], _rb(K3), op="merge", m=[["B", "y\n z\n w"]])]))
+    out.append(_tr([_ev(1, "Deb822", "B", "", False, [[["A", "x"], ["B", "x y"], ["C", "x"]], Q1], op="merge", m=[["B", "y"]])]))
+    out.append(_tr([_ev(1, "Deb822", "B", "x y", True, [[["A", "x"], ["B", "x"], ["C", "x"]], Q1], _rb(K3), op="merge", m=[["B", "y"]])]))
+    out.append(_tr([_ev(1, "Deb822", "B", "x y", True, [[["B", "x y"], ["C", "x"]], Q1], _rb(["B", "C"]), op="merge", m=[["B", "y"]])]))
+    out.append(_tr([_ev(1, "Deb822", "B", "", False, [P3, Q1], op="merge", m=[["B", "y"]], res="EXC:KeyError")]))
     return out
 
 
@@ -2382,6 +2586,7 @@ NEG_CONTROLS = (
     ("ParseLeavesUnchecked", "Deb822ValueHist", "MC_Deb822ValueHist_neg.cfg",
      {"UseN": "FALSE", "WithBuild": "TRUE", "ParseLeavesUnchecked": "TRUE"}, "HistoryFree"),
     ("DumpMemoPartial", "Deb822ValueHist", "MC_Deb822ValueHist_neg.cfg", {"DumpMemoPartial": "TRUE"}, "HistSound"),
+    ("AppendFastPath", "Deb822ValueHist", "MC_Deb822ValueHist_neg.cfg", {"UseN": "FALSE", "UseExt": "TRUE", "AppendFastPath": "TRUE"}, "HistSound"),
 )
 
 
@@ -2432,7 +2637,7 @@ def run(ctx):
 
     # 1. (b) code -> spec: assignment histories are recorded first; TLC validates them on the
     #    code points in the background while the bounded configuration runs and is replayed
-    ntr, nev, deep_every = (200, 10, 1) if quick else (3000, 12, 4)
+    ntr, nev, deep_every = (200, 12, 1) if quick else (3000, 14, 4)
     traces = [record_trace(rng, nev) for i in range(ntr)]
     for i, t in enumerate(traces):
         t["deep"] = (i % deep_every == 0)         # reader model evaluated by TLC on these (diagnostic)
@@ -2450,7 +2655,7 @@ def run(ctx):
 
     # 2. spec-level negative controls, the bounded configuration and the history LTS, side by side
     try:
-        with ThreadPoolExecutor(max_workers=4) as ex:
+        with ThreadPoolExecutor(max_workers=5) as ex:
             f_bnd = ex.submit(ctx.tlc_must_hold, "Deb822Value",
                               "MC_Deb822Value_quick.cfg" if quick else "MC_Deb822Value.cfg",
                               workers=workers, want_tags={"CASE"})
@@ -2458,6 +2663,9 @@ def run(ctx):
                               want_tags={"EDGE", "VALUE"})
             f_ltsb = ex.submit(ctx.tlc_must_hold, "Deb822ValueHist", "MC_Deb822ValueHist_build.cfg", workers=1,
                                want_tags={"EDGE", "VALUE"})
+            # same-key histories: values that extend one another, cut at a bare CR (closed; keys A / Files)
+            f_ext = ex.submit(ctx.tlc_must_hold, "Deb822ValueHist",
+                              cfg_variant("MC_Deb822ValueHist_neg.cfg", UseN="FALSE", UseExt="TRUE"), workers=1, want_tags=set())
             f_zone = None if quick else ex.submit(ctx.tlc_must_hold, "Deb822Value", "MC_Deb822Value_zone.cfg",
                                                   workers=2, want_tags={"CASE"})
             r_lts = f_lts.result()
@@ -2494,6 +2702,7 @@ def run(ctx):
                       for off in range(0, nwalks_b, wchunk_b)]
             a_walks_b = pool.map_async(walk_chunk, wpay_b)
             r_bnd = f_bnd.result()
+            r_ext = f_ext.result()
             r_zone = f_zone.result() if f_zone else None
         # the (small) negative-control runs go after the big one, next to the replay
         ex_neg = ThreadPoolExecutor(max_workers=1)
@@ -2526,6 +2735,8 @@ def run(ctx):
                           "history_lts": {"states": len(g.states), "edges": len(g.edges), "edges_per_action": ops,
                                           "objects": ["D: the key is an ordinary field", "S: the key is multivalued", "S"], "keys": ["A", "N", "Files"],
                                           "values": [txt(v["v"]) for v in hvalues]},
+                          "same_key_lts": {"states": r_ext.distinct, "transitions": r_ext.generated, "keys": ["A", "Files"],
+                                           "values": ["x\n x", "x\nx:x", "x\n", "x\r", "x\r x", "x\rx:x"]},
                           "construction_lts": {"states": len(gb.states), "edges": len(gb.edges), "edges_per_action": ops_b,
                                                "keys": ["A", "Files"], "fresh_hows": sorted(EMPTY_WAYS),
                                                "carriers": ["dict", "D paragraph", "S paragraph (raw value under its multivalued key)"]}}
@@ -2663,6 +2874,11 @@ def run(ctx):
                                  "multivalued_key_events": sum(1 for t in traces for e in t["events"] if e["obj"] == 0),
                                  "new_key_events": sum(t["newkeys"] for t in traces),
                                  "fresh_events": sum(1 for t in traces for e in t["events"] if e["op"] == "fresh"),
+                                 "same_key_events": _same_key_stats(traces),
+                                 "merge_in_place_events": {r: sum(1 for t in traces for e in t["events"] if e["op"] == "merge" and e["res"] == r)
+                                                           for r in sorted({e["res"] for t in traces for e in t["events"] if e["op"] == "merge"})},
+                                 "merge_three_arg_then_assigned": sum(1 for t in traces for c in t["script"]["calls"]
+                                                                      if len(c) > 6 and c[4] == "merge" and c[6]["form"].startswith("three-arg")),
                                  "faulted_dump_events": sum(1 for t in traces for e in t["events"] if e["op"] == "faultdump"),
                                  "build_events": {r: sum(1 for t in traces for e in t["events"] if e["op"] == "build" and e["res"] == r)
                                                   for r in sorted({e["res"] for t in traces for e in t["events"] if e["op"] == "build"})},
@@ -2674,6 +2890,30 @@ def run(ctx):
     ctx.tlc_runs.sort(key=lambda x: (x["module"], x["violated"] is not None, -x["generated"]))   # completion order varies
     phase["total_s"] = round(time.time() - ctx.t0, 1)
     ctx.extra["phase_wall"] = phase              # informational only, never part of a verdict
+
+
+def _same_key_stats(traces):
+    """assignments to a key of a live object whose STORED value is a proper prefix of the new one / extends it /
+    shares a non-empty prefix with it, and how many of the first kind were cut right behind a bare CR, LF (evidence)"""
+    out = {"extends_stored": 0, "prefix_of_stored": 0, "shares_prefix": 0, "stored_ends_in_bare_CR": 0, "cut_in_front_of_LF": 0, "cut_in_front_of_CR": 0}
+    for t in traces:
+        ps = [{txt(f["k"]).lower(): txt(f["v"]) for f in o["para"]} for o in t["objs"]]
+        for e in t["events"]:
+            if e["obj"] and e["op"] == "assign":
+                old, new = ps[e["obj"] - 1].get(txt(e["key"]).lower()), txt(e["v"])
+                if old and new and old != new:
+                    if new.startswith(old):
+                        out["extends_stored"] += 1
+                        out["stored_ends_in_bare_CR"] += old.endswith("\r")
+                        out["cut_in_front_of_LF"] += new[len(old)] == "\n"
+                        out["cut_in_front_of_CR"] += new[len(old)] == "\r"
+                    elif old.startswith(new):
+                        out["prefix_of_stored"] += 1
+                    elif old[0] == new[0]:
+                        out["shares_prefix"] += 1
+            if e["obj"]:
+                ps[e["obj"] - 1] = {txt(f["k"]).lower(): txt(f["v"]) for f in e["items"][e["obj"] - 1]}
+    return out
 
 
 def _evshow(t, i):
@@ -2690,6 +2930,11 @@ def _evshow(t, i):
         s = "%s dumped into a failing file object (%s, fault placed at field: %s) -> %s, paragraph afterwards %s" % (
             tgt, FAULT_KINDS[extra.get("sel", 0) % len(FAULT_KINDS)][0], extra.get("pos"), e["res"],
             short(show([[txt(f["k"]), txt(f["v"])] for f in e["items"][e["obj"] - 1]]), 120))
+    elif e.get("op") == "merge":
+        s = "%s .%s(%s, %s) in place, operand holding %s -> %s, field afterwards %s" % (
+            tgt, MERGE_CALLS[extra.get("sel", 0) % len(MERGE_CALLS)], show(txt(e["key"])),
+            {"live": "the other live object", "dict": "a plain mapping"}.get(extra.get("form"), "a %s paragraph" % extra.get("opcls")),
+            short(show([[txt(f["k"]), txt(f["v"])] for f in e["m"]]), 160), e["res"], show(txt(e["v"])))
     elif e.get("op") == "build":
         s = "%s := %s with M = %s holding %s -> %s" % (
             tgt, BUILD_STYLES[extra.get("style", 0) % len(BUILD_STYLES)].replace("Cls", e["cls"]), extra.get("carrier"),
